@@ -92,6 +92,9 @@ pub fn run(id: &str, tier: Tier, seed: u64) -> i32 {
             return f(tier, seed);
         }
     }
+    if id == "C21R" {
+        return sem::c21_repro();
+    }
     eprintln!("unknown check {}", id);
     2
 }
